@@ -127,7 +127,9 @@ class UpdateContextFromStatic(object):
         return self._context == other._context
 
     def _set_context(self, context):
-        self._context = context
+        # deep copy, otherwise later elements of the sequence
+        # (which update the same dictionary) would change our context
+        self._context = deepcopy(context)
 
     def run(self, flow):
         for val in flow:
